@@ -454,6 +454,45 @@ def _relp(v, d):
     return [x.replace(real, "<root>") for x in v] if isinstance(v, list) else (v.replace(real, "<root>") if isinstance(v, str) else v)
 
 
+# ---- family T3: three search paths ---------------------------------------------------------------------------------------------------
+# each of s1, s2, s3 holds one entry of a reduced alphabet (regular __init__, two different namespace-portion modules, a regular sub-package): 64 layouts,
+# among them namespace packages of three portions and regular packages shadowing two later portions.  Same two oracles (order independence; CPython's finders).
+T3_ENTRIES = ["init", "ns-portion", "m.py", "sub/init"]
+
+
+def run_three_paths(griffe, acc):
+    for combo in itertools.product(T3_ENTRIES, repeat=3):
+        files = {f"s{i + 1}/" + ENTRIES[n][0]: ENTRIES[n][1] for i, n in enumerate(combo)}
+        cd = {"family": "three-paths", "layout": list(combo)}
+        with sandbox.scratch_dir("c14t") as d:
+            sandbox.write_tree(d, files)
+            paths = [os.path.join(d, f"s{i}") for i in (1, 2, 3)]
+            ref = cpython_walk(d, paths, "p")
+            want = {k: ([os.path.realpath(x) for x in v["locations"]] if v["namespace"] else os.path.realpath(v["origin"])) for k, v in ref.items()}
+            seen = {}
+            for order_name, order in (("ascending", listing.ascending), ("descending", listing.descending)):
+                for form in ("name", "path-1", "path-2", "path-3"):
+                    target = "p" if form == "name" else os.path.join(paths[int(form[-1]) - 1], "p")
+                    try:
+                        with listing.Listing(order):
+                            loader = griffe.GriffeLoader(search_paths=paths, allow_inspection=False)
+                            mod = loader.load(target, try_relative_path=form != "name")
+                    except Exception as e:  # noqa: BLE001
+                        acc.violation(f"three-paths/raise/{type(e).__name__}/{'by-name' if form == 'name' else 'by-path'}", f"layout {combo}: load({form}) raised {e!r}", cd, None, size=3)
+                        continue
+                    got = {k: ([os.path.realpath(x) for x in t["filepath"]] if isinstance(t["filepath"], list) else os.path.realpath(t["filepath"])) for k, t in tree_of(mod, d).items()}
+                    seen[(order_name, form)] = got
+                    acc.states += 1
+                    acc.traces += 1
+                    if got != want:
+                        bad = sorted(k for k in set(got) | set(want) if got.get(k) != want.get(k))[0]
+                        what = "missing" if bad not in got else "extra" if bad not in want else "portions" if isinstance(want[bad], list) else "precedence"
+                        kinds = "+".join(sorted(set(combo)))
+                        acc.violation(f"three-paths/{what}/{'by-name' if form == 'name' else 'by-path'}/{kinds}", f"layout s1..s3 = {combo}, p requested by {form} ({order_name}): {bad} is {_relp(got.get(bad), d)}, CPython has {_relp(want.get(bad), d)}", cd, None, size=3)
+            acc.case(cd, outcome="three-paths:" + ("ok" if all(v == want for v in seen.values()) else "differs"), nontrivial=True)
+            acc.observe(sorted(map(str, seen)))
+
+
 def run_shard(shard, tier):
     boot.boot()
     import griffe
@@ -462,6 +501,8 @@ def run_shard(shard, tier):
     acc.max_samples = 2
     if shard == 0:
         run_pth(griffe, acc)
+    if shard == 1:
+        run_three_paths(griffe, acc)
     for maxe, dev in _PLAN[tier]:
         acc.dev = dev
         for idx, layout in enumerate(layouts(maxe)):
@@ -482,8 +523,8 @@ def replay(case):
 
     acc = Acc()
     acc.dev = 2
-    if case.get("family") == "pth":
-        run_pth(griffe, acc)
+    if case.get("family") in ("pth", "three-paths"):
+        (run_pth if case["family"] == "pth" else run_three_paths)(griffe, acc)
         return [(k, v["summary"], v["detail"]) for k, v in acc.violations.items()]
     run_layout(griffe, acc, tuple((n, pl) for n, pl in case["layout"]))
     return [(k, v["summary"], v["detail"]) for k, v in acc.violations.items()]
